@@ -14,6 +14,7 @@
 -/
 import MitmVerif.Lemmas.C21
 import MitmVerif.Lemmas.C21V6
+import MitmVerif.Lemmas.C21V6Back
 import MitmVerif.Gen.C21
 namespace MitmVerif.Props.C21
 open MitmVerif MitmVerif.C21
@@ -626,6 +627,63 @@ example : actAll ⟨true, fun _ _ => true, false, true⟩ (.settled init)
       [.ev (.data [5,1,2,1,0,0]), .ev (.data [5,1,0,1,1,2,3,4,0,80]), .ev (.data [7]), .ev (.data [8]), .complete] =
     (.settled .relay, [.send [5,2], .authHook [] [], .send [1,0], .setAddr 1 [1,2,3,4] 80, .childStart, .send (reply 0),
                        .child 7, .child 8]) := by decide +kernel
+
+/-! ### round 4: the IPv6 text reads back (reader = C22's transcription of CPython `ipaddress.ip_address`) -/
+
+/-- **IPv6 text is exact**: for every 16-byte address, `ipaddress.ip_address` (C22.parseIp) applied to the text the
+    server stores (`textV6`: RFC 5952 compression, embedded-IPv4 forms) returns the IPv6 address whose integer is
+    exactly the 16 requested bytes, big-endian, without scope — never an IPv4 address, never an error. -/
+theorem textV6_reads_back (ad : Bytes) (h : ad.length = 16) :
+    C22.parseIp (asciiBytes (textV6 ad)) = some (.v6 (beNat ad) none) := by
+  rw [parseIp_textV6 ad h, wordsVal_words16 ad h]
+
+/-- hence the IPv6 text determines the address -/
+theorem textV6_injective (x y : Bytes) (hx : x.length = 16) (hy : y.length = 16) (h : textV6 x = textV6 y) : x = y := by
+  have h1 := parseIp_textV6 x hx
+  rw [h, parseIp_textV6 y hy] at h1
+  have hv : wordsVal (words16 y) = wordsVal (words16 x) := by
+    injection h1 with h1; injection h1
+  have hl : (words16 x).length = (words16 y).length := words16_len x y (by omega) 16 hx
+  have := fw_inj (words16 x) (words16 y) 0 0 hl (words16_lt x) (words16_lt y) hv.symm
+  exact words16_inj x y (by omega) (by omega) this.2
+
+/-- the IPv4 text under the same reader -/
+theorem textV4_reads_back_ipaddress (a b c d : UInt8) :
+    C22.parseIp (asciiBytes (textV4 [a, b, c, d])) =
+      some (.v4 (((a.toNat * 256 + b.toNat) * 256 + c.toNat) * 256 + d.toNat)) := by
+  have := parseV4_dotted a b c d
+  simp only [textV4, asciiBytes_append, asciiBytes_cons, dot_byte, List.append_assoc, List.cons_append]
+  change C22.parseIp (D a.toNat ++ 46 :: (D b.toNat ++ 46 :: (D c.toNat ++ 46 :: D d.toNat))) = _
+  simp [C22.parseIp, this]
+
+/-- **connects exactly where requested (IP literals, as `ipaddress` reads them)**: for every segmentation of a
+    well-formed handshake for an IPv4 / IPv6 destination, the host text assigned to `context.server.address` parses —
+    with CPython's `ipaddress.ip_address` — to exactly the requested address. -/
+theorem connects_to_requested_ip (env : Env) (segs : List Bytes) (pre : Bytes) (a : UInt8) (ad : Bytes) (p : Nat)
+    (t : Bytes) (hflat : segs.flatten = pre ++ encodeReq a ad p ++ t) (hpre : ValidPre env pre) (hvd : ValidDest a ad p) :
+    addrTexts ((inc env).feedAll init segs).2 = [(hostText a ad, p)] ∧
+    (a = 4 → C22.parseIp (asciiBytes (hostText a ad)) = some (.v6 (beNat ad) none)) ∧
+    (a = 1 → C22.parseIp (asciiBytes (hostText a ad)) = some (.v4 (beNat ad))) := by
+  refine ⟨(connects_to_requested_text env segs pre a ad p t hflat hpre hvd).1, ?_, ?_⟩
+  · intro ha; subst ha
+    rcases hvd.1 with ⟨h1, _⟩ | ⟨_, hl⟩ | ⟨h3, _⟩
+    · cases h1
+    · simpa [hostText] using textV6_reads_back ad hl
+    · cases h3
+  · intro ha; subst ha
+    rcases hvd.1 with ⟨_, hl⟩ | ⟨h4, _⟩ | ⟨h3, _⟩
+    · match ad, hl with
+      | [x, y, z, w], _ =>
+        have := textV4_reads_back_ipaddress x y z w
+        simpa [hostText, beNat] using this
+    · cases h4
+    · cases h3
+
+-- non-vacuity: the reader on concrete texts (kernel computation)
+example : C22.parseIp (asciiBytes (textV6 [0x20,1,0xd,0xb8,0,0,0,0,0,1,0,0,0,0,0,1])) =
+    some (.v6 (beNat [0x20,1,0xd,0xb8,0,0,0,0,0,1,0,0,0,0,0,1]) none) := by decide +kernel
+example : C22.parseIp (asciiBytes (textV6 [0,0,0,0,0,0,0,0,0,0,0xff,0xff,1,2,3,4])) =
+    some (.v6 0xffff01020304 none) := by decide +kernel
 
 /-! ### (T) the model's literals are the constants of the code (Gen/C21.lean is regenerated on every run) -/
 
